@@ -10,7 +10,9 @@ export VERIF_REPO="$REPO"
 cd "$REPO" || exit 2
 if ! git diff --quiet; then echo "repo working tree not clean"; exit 2; fi
 git apply "$PATCH" || { echo "patch does not apply"; exit 2; }
-trap 'git -C "$REPO" checkout -- . ; rm -rf "$VERIF/replays/new"' EXIT
+# evidence files describe runs on the unchanged tree: keep them, a trial must not overwrite them
+EVBAK="$(mktemp -d)"; cp -a "$VERIF/evidence/." "$EVBAK/" 2>/dev/null
+trap 'git -C "$REPO" checkout -- . ; rm -rf "$VERIF/replays/new"; cp -a "$EVBAK/." "$VERIF/evidence/" 2>/dev/null; rm -rf "$EVBAK"' EXIT
 for id in "$@"; do
   out=$(cd "$VERIF" && timeout 1500 ./check "$id" quick 2>&1)
   rc=$?
